@@ -184,6 +184,9 @@ def normalise_module(tree):
     k = strip_casts(tree)
     if k:
         done.append("%d typing.cast" % k)
+    k = detabulate(tree)
+    if k:
+        done.append("%d table-driven forms" % k)
     k = defunctionalise(tree) + more_spellings(tree)
     if k:
         done.append("%d functional forms" % k)
@@ -1753,3 +1756,291 @@ def flatten_private_bases(mods):
                         tree2.body.remove(st)
         notes.append("%s dropped (no reference left)" % key)
     return notes
+
+
+# ------------------------------------------------------------------------------------------------------------------
+# Tables: a loop / comprehension over a CONSTANT table of rows (a tuple of tuples bound once at module level, in the class
+# body or in a local, whose cells are constants, names, lambdas, methodcaller / attrgetter / partial spellings) is read as
+# the statements it abbreviates:
+#
+#     for applies, act in TABLE:            if C1: A1               for ev, op in ((a, "set"), (b, "clear")):     a.set()
+#         if applies(x): act(y); break  ->  elif C2: A2       and       getattr(ev, op)()                     ->  b.clear()
+#     else: D                               else: D
+#
+# with (lambda p: E)(x) -> E[x/p] (left to defunctionalise), getattr(o, "n") -> o.n, setattr(o, "n", v) -> o.n = v,
+# methodcaller("m")(o) -> o.m(), operator.iadd(a, b) -> a + b.  Evaluation order, short-circuiting and the fall-through
+# are those of the loop; a loop whose break / continue structure is anything else is left alone.
+_ARITH = {"add": ast.Add, "sub": ast.Sub, "mul": ast.Mult, "truediv": ast.Div, "floordiv": ast.FloorDiv, "mod": ast.Mod, "iadd": ast.Add, "isub": ast.Sub, "imul": ast.Mult, "itruediv": ast.Div, "ifloordiv": ast.FloorDiv}
+
+
+def detabulate(tree):
+    imp = _imports(tree)
+    stats = [0]
+
+    def pure(e):
+        if isinstance(e, (ast.Constant, ast.Name, ast.Lambda)):
+            return True
+        if isinstance(e, ast.Attribute):
+            return pure(e.value)
+        if isinstance(e, (ast.Tuple, ast.List)):
+            return all(pure(x) for x in e.elts)
+        if isinstance(e, ast.Call):
+            q = _qual(e.func, imp, set())
+            return q in ("operator.methodcaller", "operator.attrgetter", "functools.partial") and all(pure(a) for a in e.args) and not e.keywords
+        return False
+
+    def rows_of(e):
+        if isinstance(e, (ast.Tuple, ast.List)) and e.elts and all(pure(x) for x in e.elts):
+            return list(e.elts)
+        return None
+
+    # module-level and class-level tables (bound exactly once, never stored to again anywhere in the module)
+    stores = {}
+    for n in ast.walk(tree):
+        if isinstance(n, ast.Name) and isinstance(n.ctx, (ast.Store, ast.Del)):
+            stores[n.id] = stores.get(n.id, 0) + 1
+    mod_tables = {}
+    for st in tree.body:
+        if isinstance(st, ast.Assign) and len(st.targets) == 1 and isinstance(st.targets[0], ast.Name) and stores.get(st.targets[0].id) == 1:
+            v = st.value
+            if isinstance(v, ast.Subscript) and isinstance(v.value, ast.Name) and v.value.id in mod_tables and isinstance(v.slice, ast.Slice) and v.slice.step is None:
+                lo = v.slice.lower.value if isinstance(v.slice.lower, ast.Constant) else (None if v.slice.lower is None else "?")
+                hi = v.slice.upper.value if isinstance(v.slice.upper, ast.Constant) else (None if v.slice.upper is None else "?")
+                if lo != "?" and hi != "?":
+                    mod_tables[st.targets[0].id] = mod_tables[v.value.id][lo:hi]
+                continue
+            r = rows_of(v)
+            if r is not None:
+                mod_tables[st.targets[0].id] = r
+    cls_tables = {}
+    for c in ast.walk(tree):
+        if isinstance(c, ast.ClassDef):
+            for st in c.body:
+                if isinstance(st, ast.Assign) and len(st.targets) == 1 and isinstance(st.targets[0], ast.Name):
+                    r = rows_of(st.value)
+                    nm = st.targets[0].id
+                    if r is not None and nm.startswith("_") and not any(isinstance(x, ast.Attribute) and x.attr == nm and isinstance(x.ctx, ast.Store) for x in ast.walk(tree)):
+                        cls_tables[nm] = r
+
+    def table(e, local):
+        if isinstance(e, ast.Name):
+            if e.id in local:
+                return local[e.id]
+            return mod_tables.get(e.id)
+        if isinstance(e, ast.Attribute) and isinstance(e.value, ast.Name) and e.value.id in ("self", "cls") and e.attr in cls_tables:
+            return cls_tables[e.attr]
+        if isinstance(e, ast.Call) and isinstance(e.func, ast.Name) and e.func.id == "zip" and len(e.args) == 2 and not e.keywords:
+            a, b = (table(x, local) or rows_of(x) for x in e.args)
+            if a is not None and b is not None and len(a) == len(b):
+                return [ast.Tuple(elts=[x, y], ctx=ast.Load()) for x, y in zip(a, b)]
+            return None
+        return rows_of(e) if isinstance(e, (ast.Tuple, ast.List)) and all(isinstance(x, (ast.Tuple, ast.List)) for x in e.elts) else None
+
+    def bind(target, row):
+        """{name: expr} for one row, None when the shapes do not match"""
+        if isinstance(target, ast.Name):
+            return {target.id: row}
+        if isinstance(target, (ast.Tuple, ast.List)) and isinstance(row, (ast.Tuple, ast.List)) and len(target.elts) == len(row.elts) and not any(isinstance(t, ast.Starred) for t in target.elts):
+            out = {}
+            for t, r in zip(target.elts, row.elts):
+                sub = bind(t, r)
+                if sub is None:
+                    return None
+                out.update(sub)
+            return out
+        return None
+
+    def subst(node, env):
+        class S(ast.NodeTransformer):
+            def visit_Name(self, n):
+                if isinstance(n.ctx, ast.Load) and n.id in env:
+                    return ast.copy_location(copy.deepcopy(env[n.id]), n)
+                return n
+
+            def visit_Lambda(self, n):
+                inner = {k: v for k, v in env.items() if k not in {a.arg for a in n.args.args + n.args.kwonlyargs}}
+                n.body = subst(n.body, inner)
+                return n
+
+        return S().visit(copy.deepcopy(node))
+
+    def jumps(stmts):
+        """Break / Continue statements belonging to THIS loop level"""
+        out = []
+
+        def rec(ss):
+            for s in ss:
+                if isinstance(s, (ast.Break, ast.Continue)):
+                    out.append(s)
+                elif isinstance(s, (ast.For, ast.AsyncFor, ast.While)):
+                    rec(s.orelse)
+                elif isinstance(s, (ast.FunctionDef, ast.AsyncFunctionDef, ast.ClassDef)):
+                    pass
+                else:
+                    for f in ("body", "orelse", "finalbody"):
+                        rec(getattr(s, f, []) or [])
+                    for h in getattr(s, "handlers", []) or []:
+                        rec(h.body)
+                    for c in getattr(s, "cases", []) or []:
+                        rec(c.body)
+
+        rec(stmts)
+        return out
+
+    def unroll(loop, rows, fn):
+        envs = [bind(loop.target, r) for r in rows]
+        if any(e is None for e in envs):
+            return None
+        tnames = set(envs[0])
+        if any(isinstance(n, ast.Name) and n.id in tnames and isinstance(n.ctx, (ast.Store, ast.Del)) for s in loop.body for n in ast.walk(s)):
+            return None
+        # targets read after the loop keep the value of the row that was left by break / of the last row
+        inside = {id(n) for s in loop.body + loop.orelse for n in ast.walk(s)} | {id(n) for n in ast.walk(loop.target)}
+        used_outside = {n.id for n in ast.walk(fn) if isinstance(n, ast.Name) and n.id in tnames and id(n) not in inside and isinstance(n.ctx, ast.Load)}
+
+        def keep(env):
+            return [ast.copy_location(ast.Assign(targets=[ast.Name(id=k, ctx=ast.Store())], value=copy.deepcopy(env[k])), loop) for k in sorted(used_outside)]
+
+        js = jumps(loop.body)
+        if not js:
+            out = []
+            for env in envs:
+                out += keep(env) + [subst(s, env) for s in loop.body]
+            return out + list(loop.orelse)
+        if len(loop.body) == 1 and isinstance(loop.body[0], ast.If) and not loop.body[0].orelse:
+            inner = loop.body[0]
+            last = inner.body[-1]
+            if len(js) == 1 and js[0] is last and isinstance(last, ast.Break):
+                chain = list(loop.orelse)
+                for env in reversed(envs):
+                    body = keep(env) + [subst(s, env) for s in inner.body[:-1]] or [ast.copy_location(ast.Pass(), inner)]
+                    chain = [ast.copy_location(ast.If(test=subst(inner.test, env), body=body, orelse=chain), inner)]
+                return chain
+        return None
+
+    def unroll_returning(loop, rows):
+        # `for ...: if C: ...; return X` (no break / continue): the if / elif chain, falling through to what follows
+        if len(loop.body) == 1 and isinstance(loop.body[0], ast.If) and not loop.body[0].orelse and isinstance(loop.body[0].body[-1], (ast.Return, ast.Raise)) and not jumps(loop.body):
+            envs = [bind(loop.target, r) for r in rows]
+            if any(e is None for e in envs):
+                return None
+            inner = loop.body[0]
+            chain = list(loop.orelse)
+            for env in reversed(envs):
+                chain = [ast.copy_location(ast.If(test=subst(inner.test, env), body=[subst(s, env) for s in inner.body], orelse=chain), inner)]
+            return chain
+        return None
+
+    def do_block(stmts, local, fn):
+        out = []
+        for st in stmts:
+            if isinstance(st, ast.Assign) and len(st.targets) == 1 and isinstance(st.targets[0], ast.Name) and fn is not None:
+                r = rows_of(st.value)
+                nm = st.targets[0].id
+                binds = [n for n in ast.walk(fn) if isinstance(n, ast.Name) and n.id == nm and isinstance(n.ctx, (ast.Store, ast.Del))]
+                if r is not None and len(binds) == 1 and all(isinstance(x, (ast.Tuple, ast.List)) for x in r):
+                    local = dict(local)
+                    local[nm] = r
+            if isinstance(st, ast.For) and fn is not None:
+                rows = table(st.iter, local)
+                if rows is not None:
+                    new = unroll_returning(st, rows) or unroll(st, rows, fn)
+                    if new is not None:
+                        stats[0] += 1
+                        out += do_block(new, local, fn)
+                        continue
+            for f in ("body", "orelse", "finalbody"):
+                if isinstance(getattr(st, f, None), list) and not isinstance(st, (ast.FunctionDef, ast.AsyncFunctionDef, ast.ClassDef)):
+                    setattr(st, f, do_block(getattr(st, f), local, fn))
+            for h in getattr(st, "handlers", []) or []:
+                h.body = do_block(h.body, local, fn)
+            if isinstance(st, (ast.FunctionDef, ast.AsyncFunctionDef)):
+                st.body = do_block(st.body, {}, st)
+            elif isinstance(st, ast.ClassDef):
+                st.body = do_block(st.body, {}, None)
+            out.append(st)
+        return out
+
+    tree.body = do_block(tree.body, {}, None)
+
+    # comprehensions over tables -> displays
+    class Comp(ast.NodeTransformer):
+        def generic_comp(self, node):
+            self.generic_visit(node)
+            if len(node.generators) != 1 or node.generators[0].ifs or node.generators[0].is_async:
+                return node
+            rows = table(node.generators[0].iter, {})
+            if rows is None:
+                return node
+            envs = [bind(node.generators[0].target, r) for r in rows]
+            if any(e is None for e in envs):
+                return node
+            stats[0] += 1
+            if isinstance(node, ast.DictComp):
+                new = ast.Dict(keys=[subst(node.key, e) for e in envs], values=[subst(node.value, e) for e in envs])
+            elif isinstance(node, ast.SetComp):
+                new = ast.Set(elts=[subst(node.elt, e) for e in envs])
+            else:
+                new = ast.List(elts=[subst(node.elt, e) for e in envs], ctx=ast.Load()) if isinstance(node, ast.ListComp) else ast.Tuple(elts=[subst(node.elt, e) for e in envs], ctx=ast.Load())
+            return ast.copy_location(new, node)
+
+        visit_DictComp = visit_ListComp = visit_SetComp = generic_comp
+
+        def visit_GeneratorExp(self, node):
+            return self.generic_comp(node)
+
+    Comp().visit(tree)
+
+    # small spellings the substitution leaves behind
+    class Tidy(ast.NodeTransformer):
+        def visit_Dict(self, node):
+            self.generic_visit(node)
+            if any(k is None and isinstance(v, ast.Dict) and None not in v.keys for k, v in zip(node.keys, node.values)):
+                keys, vals = [], []
+                for k, v in zip(node.keys, node.values):
+                    if k is None and isinstance(v, ast.Dict) and None not in v.keys:
+                        keys += v.keys
+                        vals += v.values
+                    else:
+                        keys.append(k)
+                        vals.append(v)
+                node.keys, node.values = keys, vals
+                stats[0] += 1
+            return node
+
+        def visit_Call(self, node):
+            self.generic_visit(node)
+            # f(**{"a": x}) -> f(a=x)
+            if any(k.arg is None and isinstance(k.value, ast.Dict) and k.value.keys and all(isinstance(x, ast.Constant) and isinstance(x.value, str) and x.value.isidentifier() for x in k.value.keys) for k in node.keywords):
+                kws = []
+                for k in node.keywords:
+                    if k.arg is None and isinstance(k.value, ast.Dict) and k.value.keys and all(isinstance(x, ast.Constant) and isinstance(x.value, str) and x.value.isidentifier() for x in k.value.keys):
+                        kws += [ast.keyword(arg=x.value, value=v) for x, v in zip(k.value.keys, k.value.values)]
+                    else:
+                        kws.append(k)
+                node.keywords = kws
+                stats[0] += 1
+            q = _qual(node.func, imp, set())
+            if isinstance(node.func, ast.Name) and node.func.id == "getattr" and len(node.args) == 2 and not node.keywords and isinstance(node.args[1], ast.Constant) and isinstance(node.args[1].value, str) and node.args[1].value.isidentifier():
+                stats[0] += 1
+                return ast.copy_location(ast.Attribute(value=node.args[0], attr=node.args[1].value, ctx=ast.Load()), node)
+            if q and q.startswith("operator.") and q.split(".")[1] in _ARITH and len(node.args) == 2 and not node.keywords:
+                stats[0] += 1
+                return ast.copy_location(ast.BinOp(left=node.args[0], op=_ARITH[q.split(".")[1]](), right=node.args[1]), node)
+            if isinstance(node.func, ast.Call) and _qual(node.func.func, imp, set()) == "operator.methodcaller" and node.func.args and isinstance(node.func.args[0], ast.Constant) and isinstance(node.func.args[0].value, str) and len(node.args) == 1 and not node.keywords:
+                stats[0] += 1
+                return ast.copy_location(ast.Call(func=ast.Attribute(value=node.args[0], attr=node.func.args[0].value, ctx=ast.Load()), args=list(node.func.args[1:]), keywords=list(node.func.keywords)), node)
+            return node
+
+        def visit_Expr(self, node):
+            self.generic_visit(node)
+            c = node.value
+            if isinstance(c, ast.Call) and isinstance(c.func, ast.Name) and c.func.id == "setattr" and len(c.args) == 3 and not c.keywords and isinstance(c.args[1], ast.Constant) and isinstance(c.args[1].value, str) and c.args[1].value.isidentifier():
+                stats[0] += 1
+                return ast.copy_location(ast.Assign(targets=[ast.Attribute(value=c.args[0], attr=c.args[1].value, ctx=ast.Store())], value=c.args[2]), node)
+            return node
+
+    if stats[0]:
+        Tidy().visit(tree)
+        ast.fix_missing_locations(tree)
+    return stats[0]
